@@ -215,14 +215,37 @@ def withinTolH (T : Tol) (p a b : HPt) : Bool :=
 def expectedLocus (op : Op) (cs : List Cell) (ns : List Node) : List (HPt × HPt) :=
   (cs.filter (·.expected op)).map (fun c => (c.a, c.b)) ++ (ns.filter (·.expected)).map (fun n => (n.v, n.v))
 
+/-- conditioning of a node: the smallest `sin²` of the angle between a segment of A through `p` and a segment of B
+through `p` that cross transversally there, as a fraction `(num, den)`; `(1, 1)` when there is no such pair.
+A perturbation `δ` of the inputs moves such a crossing point by `δ / sin θ`. -/
+def crossSin2 (A B : Flat) (p : HPt) : Int × Int :=
+  let sa := A.segs.filter fun s => onSegH s.p s.q p
+  let sb := B.segs.filter fun s => onSegH s.p s.q p
+  sa.foldl (fun acc s => sb.foldl (fun (acc : Int × Int) t =>
+    let c := (s.q.x - s.p.x) * (t.q.y - t.p.y) - (s.q.y - s.p.y) * (t.q.x - t.p.x)
+    let n := c * c
+    let d := s.sqLen * t.sqLen
+    if n == 0 then acc else if n * acc.2 < acc.1 * d then (n, d) else acc) acc) (1, 1)
+
+/-- `dist(p, s) ≤ 1e-9 · mag / sin θ` with `sin² θ = sn / sd` -/
+def withinTolAmp (T : Tol) (sn sd : Int) (p : HPt) (s : Seg) : Bool :=
+  let (n, d) := sqDistSeg p s
+  decide (n * 1000000000000000000 * sn ≤ T.mag * T.mag * d * sd)
+
+def nearRAmp (T : Tol) (sn sd : Int) (R : Flat) (p : HPt) : Bool :=
+  R.segs.any (withinTolAmp T sn sd p) || R.pts.any (fun q => withinTolAmp T sn sd p ⟨q, q⟩)
+
 /-- excuse for a mismatching 1-cell / node sampled at `p` (`inR` = membership found in R; expected = `!inR`):
 * found in R, not expected: the specified result passes within tol of `p`, or the undetermined bits can make `p` expected;
-* expected, not found: R passes within tol of `p`, or the undetermined bits can make `p` not expected. -/
+* expected, not found: R passes within tol of `p` (for a node where A and B cross at angle θ: within tol / sin θ, the
+  distance by which a tol-perturbation of the inputs moves the crossing), or the undetermined bits can make `p` not expected. -/
 def lowerExcused (T : Tol) (op : Op) (A B R : Flat) (E : List (HPt × HPt)) (p : HPt) (inA inB inR : Bool) : Bool :=
   let oa := opts T A p inA
   let ob := opts T B p inB
   if inR then E.any (fun e => withinTolH T p e.1 e.2) || oa.any fun a => ob.any fun b => boolop op a b
-  else nearR T R p || oa.any fun a => ob.any fun b => !boolop op a b
+  else
+    let (sn, sd) := crossSin2 A B p
+    nearRAmp T sn sd R p || oa.any fun a => ob.any fun b => !boolop op a b
 
 def Cell.okTol (T : Tol) (op : Op) (A B R : Flat) (E : List (HPt × HPt)) (c : Cell) : Bool :=
   ((c.lR == c.faceL op) || faceExcused T op A B R c true) &&
@@ -244,13 +267,36 @@ def accepts (T : Tol) (op : Op) (A B R : Flat) : Bool :=
 
 /-! ### does the overlay of A and B need a vertex that is not representable? -/
 
-/-- some intersection point of two input segments is not an integer point below 2^53 units -/
+/-- `n` without its factors of two (fuel = bit length) -/
+def oddPartAux : Nat → Nat → Nat
+  | 0, n => n
+  | fuel + 1, n => if n != 0 && n % 2 == 0 then oddPartAux fuel (n / 2) else n
+
+def oddPart (n : Nat) : Nat := oddPartAux (n.log2 + 1) n
+
+/-- an integer number of units `2^e0` is a binary64 value iff its odd part has at most 53 bits (exponent range aside) -/
+def representable (x : Int) : Bool := decide (oddPart x.natAbs < 9007199254740992)
+
+/-- number of trailing zero bits (0 for 0) -/
+def trailingZeros (n : Nat) : Nat := if n == 0 then 0 else (n / oddPart n).log2
+
+/-- "grid-exact" inputs (the Grid hypothesis of DESIGN section 2): all ordinates are integer multiples of one power of
+two with multipliers below 2^27 -/
+def gridExact (coords : List Int) : Bool :=
+  let nz := (coords.map Int.natAbs).filter (· != 0)
+  match nz with
+  | [] => true
+  | a :: r =>
+    let tz := r.foldl (fun t n => min t (trailingZeros n)) (trailingZeros a)
+    nz.all fun n => decide (n / 2 ^ tz < 134217728)
+
+/-- some intersection point of two input segments (or of a segment and an input point) is not representable -/
 def needsNewVertex (A B : Flat) : Bool :=
   let segs := ((A.segs ++ B.segs).map canonSeg).eraseDups
   let pts := A.pts ++ B.pts
   segs.any fun s => (splitParams s segs pts).any fun l =>
     let v := s.at l
-    v.w != 1 || decide (v.x.natAbs ≥ 9007199254740992) || decide (v.y.natAbs ≥ 9007199254740992)
+    v.w != 1 || !representable v.x || !representable v.y
 
 /-! ### light exact validity of the result -/
 
